@@ -386,7 +386,7 @@ def job_op(op, Ka, Kb, ua, ub):
                 if op == "div":
                     goal = L.eq(L.mul(R, Y), X)      # Y != 0 on this path (no ZeroDivisionError)
                 else:
-                    goal = L.eq(R, exact(X, Y))
+                    goal = L.eq_scaled(R, exact(X, Y), *([X, Y] if op in ("add", "sub") and not L._symbolic(X, Y) else []))
                 O.prove("op:SI-magnitude", goal, props=("C06", "C07"))
         _frames(O, a, sa, b, sb)
 
@@ -445,7 +445,8 @@ def check_abs(O, op, TA, TB, real):
                     ub_ = TB[2] if TB[0] == "q" else None
                     ok = ok and AU.result_unit(op, TA, TB, ua_, ub_, o1[1]) == o1[2]
                     nz = L.Not(L.eq(TB[3] if TB[0] == "q" else TB[1], 0)) if op == "div" else True
-                    parts.append(L.Implies(L.And(c1, nz), L.eq(L.mul(o1[3], f_spec(o1[1], o1[2])), o2[3])))
+                    scale = [x[3] for x in (SA, SB) if x[0] == "q" and not L._symbolic(x[3])] if op in ("add", "sub") else []
+                    parts.append(L.Implies(L.And(c1, nz), L.eq_scaled(L.mul(o1[3], f_spec(o1[1], o1[2])), o2[3], *scale)))
     O.prove("helper:abstract-contract-is-unit-independent", L.And(ok, *parts), props=HELPER_PROPS)
 
 
@@ -489,7 +490,7 @@ def job_inverse(Ka, Kb, ua, ub):
             r = None
         if r is not None:
             O.cover("inv:(a+b)-b-defined")
-            O.prove("inv:(a+b)-b=a", L.eq(si(kind_of(r), r.value, r.unit), X), props=("C06",))
+            O.prove("inv:(a+b)-b=a", L.eq_scaled(si(kind_of(r), r.value, r.unit), X, *((X, Y) if c.concrete else ())), props=("C06",))
         try:
             d1 = a - b
             d2 = -(b - a)
@@ -498,8 +499,8 @@ def job_inverse(Ka, Kb, ua, ub):
         if d1 is None or d2 is None:
             return
         O.cover("inv:a-b-and-(b-a)-defined")
-        O.prove("inv:a-b=-(b-a)", L.eq(si(kind_of(d1), d1.value, d1.unit), si(kind_of(d2), d2.value, d2.unit)),
-                props=("C06",))
+        O.prove("inv:a-b=-(b-a)", L.eq_scaled(si(kind_of(d1), d1.value, d1.unit), si(kind_of(d2), d2.value, d2.unit),
+                                              *((X, Y) if c.concrete else ())), props=("C06",))
     return Job(f"units.inverse[{Ka}({ua}),{Kb}({ub})]", body, ("C06",),
                functions=[f"gearpy.units.units.{Ka}.__add__", f"gearpy.units.units.{Ka}.__sub__",
                           f"gearpy.units.units.{Kb}.__sub__", f"{FUNCS_BASE}.__neg__"],
